@@ -23,7 +23,15 @@ def correspondence(ctx):
     return FL.correspondence(ctx, PID, kw, 60, 1500, accept=acc)
 
 
+WITNESSES = [   # inside the signatures of the listed known findings: only confirm that they still reproduce
+    dict(name='D14', props=[], regions=[['rect', 'a', 10, 10, 20, 20]], lines=['G28', 'G1 X5 Y5 Z1 F3000', 'G1 X15 Y15', 'G28 X', 'G1 X16 Y16', 'G1 X30 Y30']),
+    dict(name='D21', props=[], regions=[['rect', 'a', 10, 10, 20, 20]], lines=['G28', 'G1 X5 Y5 Z1 F3000', 'G1 X12 Y12', 'G2 X18 Y18 R1', 'G1 X30 Y30']),
+    dict(name='D15', props=[], regions=[['rect', 'a', 10, 10, 20, 20]], lines=['G28', 'G1 X30 Y30 Z1 F3000', 'G91', 'G2 X5 Y0 I2.5 J0', 'G1 X-20 Y-15', 'G90', 'G1 X40 Y40']),
+]
+
+
 def oracle(ctx, budget=1, replay=None, hints=None):
     kw, styles = _kw()
     acc = (lambda p: p['style'] in styles) if styles else None
-    return FL.oracle(ctx, PID, [O.check_C01], kw, 150 * budget, accept=acc, replay=replay)
+    return FL.oracle(ctx, PID, [O.check_C01], kw, 150 * budget, accept=acc, replay=replay,
+                     extra_progs=[FL.corpus_prog(w) for w in WITNESSES])
